@@ -81,7 +81,7 @@ Definition match_all_of (es : list elem) : option (str * Z) :=
   match es with
   | [EBind b] => if str_eqb b star2 then Some (star2, 0%Z) else None
   | [EParams ((b, VLit v) :: rest)] =>
-      if str_eqb v star2 then
+      if str_eqb v star2 && forallb (fun p => match snd p with VRegex _ => false | VLit _ => true end) rest then
         Some (b, match rest with
                  | (c, VLit cv) :: _ => if str_eqb c s_capture then atoi cv else 0%Z
                  | _ => 0%Z
